@@ -7,6 +7,7 @@ import (
 	"google.golang.org/protobuf/proto"
 
 	pb "github.com/openconfig/gnmi/proto/gnmi"
+	"github.com/openconfig/gnmi/subscribe"
 	"github.com/openconfig/gnmi/zzverif/hutil"
 	"github.com/openconfig/gnmi/zzverif/vrt"
 	"github.com/openconfig/gnmi/zzverif/xplore"
@@ -24,10 +25,15 @@ type cfg12 struct {
 	uo     bool
 	second string // none, poll, nonpoll, eof
 	state  string // empty, small, atomic, metaonly
+	stats  bool   // server created WithStats()
 }
 
 func (c cfg12) String() string {
-	return fmt.Sprintf("first=%s prefix=%s mode=%d paths=%s updates_only=%v second=%s cache=%s", c.first, c.prefix, c.mode, c.paths, c.uo, c.second, c.state)
+	st := ""
+	if c.stats {
+		st = " server=WithStats"
+	}
+	return fmt.Sprintf("first=%s prefix=%s mode=%d paths=%s updates_only=%v second=%s cache=%s%s", c.first, c.prefix, c.mode, c.paths, c.uo, c.second, c.state, st)
 }
 
 func configs12(tier string) []xplore.Config {
@@ -49,8 +55,20 @@ func configs12(tier string) []xplore.Config {
 								if tier != "thorough" && state != "small" && (paths == "two" || paths == "a/star" || prefix == "notarget") {
 									continue
 								}
-								c := cfg12{first, prefix, mode, paths, uo, second, state}
+								c := cfg12{first, prefix, mode, paths, uo, second, state, false}
 								out = append(out, xplore.Config{Name: c.String(), Bound: bound, Data: c})
+								// the same request against a server that keeps statistics
+								// (any int32 is a valid wire value of the mode enum)
+								if state == "small" && (paths == "a" || paths == "star") && !uo {
+									c.stats = true
+									out = append(out, xplore.Config{Name: c.String(), Bound: bound, Data: c})
+									if mode == 7 {
+										for _, m := range []int32{-1, 3, 1 << 30} {
+											c.mode = m
+											out = append(out, xplore.Config{Name: c.String(), Bound: bound, Data: c})
+										}
+									}
+								}
 							}
 						}
 					}
@@ -120,7 +138,11 @@ func run12(cfg xplore.Config, ch vrt.Chooser, trace bool) (xplore.Outcome, *vrt.
 	c := cfg.Data.(cfg12)
 	var out xplore.Outcome
 	res := vrt.Run(ch, vrt.Options{Reverse: cfg.Reverse, Trace: trace}, func() {
-		w := newWorld([]string{"t1", "t2"})
+		var sopts []subscribe.Option
+		if c.stats {
+			sopts = append(sopts, subscribe.WithStats())
+		}
+		w := newWorld([]string{"t1", "t2"}, sopts...)
 		switch c.state {
 		case "small":
 			setupInitial(w)
